@@ -34,7 +34,7 @@ func runC05(c *Check, tier string) {
 	ruleRerunFailureFailsDependant(c, "R05l")
 	// a target that failed (also by timeout) is recorded as failed: the routine reports every outcome but cancellation
 	if w := findWalker(c, "R05h"); w != nil {
-		shareRule(c, "R05h", "after the callback returned the node routine reports a completion on every path unless the error is context.Canceled (same obligation as R04c)", 1, "R04c", func(sub *Check) { ruleR04c(sub, w) }, func(k string) bool { return strings.Contains(k, "completion-on-every-exit") })
+		shareRule(c, "R05h", "after the callback returned the node routine reports a completion on every path unless the walk's own context is done (same obligation as R04c)", 1, "R04c", func(sub *Check) { ruleR04c(sub, w) }, func(k string) bool { return strings.Contains(k, "completion-on-every-exit") })
 	}
 }
 
@@ -161,6 +161,9 @@ func ruleR05c(c *Check, rule string) {
 		comp := args[len(args)-1]
 		succ, known := completionSuccessConst(comp)
 		if !known {
+			if completionFromHelper(c, rule, w, s, comp, rn) {
+				continue
+			}
 			c.Unknown(rule, "success-only-on-nil-error/"+rn, "the completion passed to the handler is not a literal with a constant IsSuccess", c.P.InstrPos(s))
 			continue
 		}
@@ -310,6 +313,49 @@ func descendantsLoop(c *Check, lp *engine.Loop) bool {
 }
 
 // completionSuccessConst: the IsSuccess constant of a Completion literal passed by value.
+// completionFromHelper: the completion handed to the handler is built by a helper that receives the callback's
+// error (`completionOf(cacheResult, err)`): inside it every literal with IsSuccess=true has to sit behind the
+// nil branch of that parameter.
+func completionFromHelper(c *Check, rule string, w *walkerInfo, s ssa.CallInstruction, comp ssa.Value, rn string) bool {
+	call, ok := comp.(*ssa.Call)
+	if !ok {
+		return false
+	}
+	h := call.Call.StaticCallee()
+	if h == nil || len(h.Blocks) == 0 || !engine.IsFirstParty(pkgPathOf(h)) {
+		return false
+	}
+	set := map[ssa.CallInstruction]int{w.CallbackCall: engine.ErrResultIndex(w.CallbackCall.Common().Signature())}
+	var errParam *ssa.Parameter
+	for i, a := range call.Call.Args {
+		if i < len(h.Params) && engine.OriginsAllFromCall(a, set, true) {
+			errParam = h.Params[i]
+		}
+	}
+	if errParam == nil {
+		return false
+	}
+	onNil := engine.CutEdgesWhere(func(a engine.Atom) bool { return a.Op == "nil" && a.V == ssa.Value(errParam) })
+	decided := false
+	for _, r := range engine.Returns(h) {
+		if len(r.Results) != 1 {
+			return false
+		}
+		succ, known := completionSuccessConst(r.Results[0])
+		if !known {
+			return false
+		}
+		decided = true
+		if succ {
+			reach, _ := engine.PathExists(h, nil, engine.IsInstr(r), engine.PathQuery{CutEdge: onNil, Shallow: true})
+			c.Require(!reach, rule, "success-only-on-nil-error/"+rn, "a successful completion is built only on the err == nil branch of the helper that receives the callback's error", "a node whose callback returned an error can be recorded as successful", c.P.InstrPos(r))
+		} else {
+			c.OK(rule, "failure-completion/"+rn, "failed completion reported with IsSuccess=false", c.P.InstrPos(r))
+		}
+	}
+	return decided
+}
+
 func completionSuccessConst(v ssa.Value) (bool, bool) {
 	ld, ok := v.(*ssa.UnOp)
 	if !ok {
